@@ -1,7 +1,7 @@
 (* Dispatcher: one entry point for every executable model function. *)
-From Coq Require Import List ZArith Arith Bool.
+From Coq Require Import List ZArith Arith Bool QArith Qcanon.
 From MsmV Require Import Lib.Result Lib.PyList Lib.Sorting Run.Wire.
-From MsmV Require Import Lib.QMat Model.Labels Model.StateTraj Model.Msm Proofs.MsmFacts Model.Coring Proofs.CoringFacts Proofs.CoringWrap Model.Events Model.Similarity Spec.Wrappers.
+From MsmV Require Import Lib.QMat Model.Labels Model.StateTraj Model.Msm Proofs.MsmFacts Model.Coring Proofs.CoringFacts Proofs.CoringWrap Model.Events Model.Similarity Spec.Wrappers Model.Ergodic.
 Import ListNotations.
 Local Open Scope Z_scope.
 
@@ -85,6 +85,29 @@ Definition run_events (e : Z) (a : list Z) : option (list Z) :=
     | None => None end
   else None.
 
+Definition dQmat : dec (list (list Qc)) := dlist (dlist dQ).
+Definition ebools (l : list bool) : list Z := elist ebool l.
+
+(* threshold-freeness of a case: no entry of the exact power in (0, atol], and
+   no row sum whose distance from one is within 1e-12 of the 1e-8 tolerance *)
+Definition tiny12 : Qc := Q2Qc (1 # 1000000000000).
+Definition threshold_free (M : mat) : bool :=
+  let P := mpow_scaled M (wexp (length M)) in
+  all_entries (fun x => Qc_eqb x 0 || Qc_ltb (atol8 + tiny12) x || Qc_ltb x 0) P.
+Definition rows_clear (M : mat) : bool :=
+  forallb (fun s => let d := Qc_abs (s - 1) in Qc_leb d (atol8 - tiny12) || Qc_ltb (atol8 + tiny12) d) (rowsums M).
+
+Definition run_ergodic (e : Z) (a : list Z) : option (list Z) :=
+  if e =? 1401 then
+    match dQmat a with
+    | Some (M, _) =>
+        Some (ebool (is_tmat atol8 M) ++ ebool (is_ergodic atol8 M) ++ ebool (is_fuzzy_ergodic atol8 M)
+              ++ eres ebools (ergodic_mask atol8 M)
+              ++ ebool (graph_ergodic (supp M)) ++ ebool (threshold_free M) ++ ebool (rows_clear M)
+              ++ ebool (stochastic M) ++ eopt ebools (mask_spec (supp M)))
+    | None => None end
+  else None.
+
 Definition run (req : list Z) : list Z :=
   match req with
   | [] => malformed
@@ -100,6 +123,9 @@ Definition run (req : list Z) : list Z :=
       | None =>
       match run_events e a with
       | Some r => r
+      | None =>
+      match run_ergodic e a with
+      | Some r => r
       | None => malformed
-      end end end end
+      end end end end end
   end.
